@@ -216,6 +216,23 @@ async def scenario(kind, labels, expected, clients_kind, repo_src):
                         clients.append(c)
                     except (ConnectionError, FileNotFoundError, OSError, asyncio.TimeoutError):
                         refused += 1
+            elif w[0] == "connectbad":
+                # garbage instead of the handshake (or, every other time, an immediate hang-up)
+                c = RawClient()
+                try:
+                    c.reader, c.writer = await asyncio.wait_for(opener(), STEP_TIMEOUT)
+                    if i % 2 == 0:
+                        c.writer.write(b"this is not json\n")
+                        await c.writer.drain()
+                    await asyncio.sleep(0.02)
+                    c.open = False
+                    with contextlib.suppress(Exception):
+                        c.writer.close()
+                        await c.writer.wait_closed()
+                    c.reader = None          # whatever the server may have sent is not a reply
+                    clients.append(c)
+                except (ConnectionError, FileNotFoundError, OSError, asyncio.TimeoutError):
+                    refused += 1
             elif w[0] == "send":
                 j = int(w[1])
                 if j < len(clients) and clients[j].open:
